@@ -312,3 +312,8 @@ def t_pipeline(sess, system, n_grains):
             sess.prove_nf(f"{tag}: pair ({i},{j}): datum unchanged by a rigid rotation of the sample frame", p.pc, rules, [rot[0][k].arg], [d.arg], tags=optional)
             sess.prove_nf(f"{tag}: pair ({i},{j}): datum unchanged by reordering the grains", p.pc, rules, [perm[0][kk].arg], [d.arg], tags=optional)
     sample(sess, obligation="misorientation datum", system=system, datum0=str(base[0][0].arg)[:200])
+
+
+def default_cex(name):
+    """Generic public-API replay for verdicts that carry no more specific counterexample."""
+    return {"replay": "vf.props.replays:c14_triclinic", "case": {}, "cls": {"kind": "triclinic misorientation pipeline not invariant"}}
